@@ -14,6 +14,10 @@ import tempfile
 import time
 
 ROOT = os.path.dirname(os.path.abspath(__file__))
+# where evidence/ and replays/ are written (default: next to this file); runs on patched scratch
+# copies of the repository (tools/seed_matrix2.py) point this elsewhere so that the committed
+# evidence keeps describing /repo
+OUT = os.environ.get("VERIF_OUT", ROOT)
 REPO = os.environ.get("VERIF_REPO", "/repo")
 VENV_PY = os.environ.get("VERIF_VENV_PY", "/venv/bin/python")
 VT_PY = os.environ.get("VERIF_VT_PY", "python3-vt")
@@ -139,8 +143,8 @@ def main():
     seed = int(os.environ.get("VERIF_SEED", "0") or 0)
     meta = META[prop]
     t0 = time.time()
-    os.makedirs(os.path.join(ROOT, "evidence"), exist_ok=True)
-    os.makedirs(os.path.join(ROOT, "replays"), exist_ok=True)
+    os.makedirs(os.path.join(OUT, "evidence"), exist_ok=True)
+    os.makedirs(os.path.join(OUT, "replays"), exist_ok=True)
     tmp = tempfile.mkdtemp(prefix=f"verif_{prop}_", dir=os.environ.get("VERIF_SCRATCH"))
     try:
         rc = _main(prop, tier, seed, meta, tmp, a, t0)
@@ -293,7 +297,7 @@ def _main(prop, tier, seed, meta, tmp, a, t0):
     ev = {"property_id": prop, "tier": tier, "seed": seed, "level": level, "coverage": cov,
           "assumptions": meta.get("assumptions", []) + P.get("assumptions", []),
           "wall_s": wall, "violations": len(fresh)}
-    json.dump(ev, open(os.path.join(ROOT, "evidence", f"{prop}.json"), "w"), indent=1, default=str)
+    json.dump(ev, open(os.path.join(OUT, "evidence", f"{prop}.json"), "w"), indent=1, default=str)
     # ---- report
     print(f"[{prop}] engine P: {n_proved}/{n_ob} obligations discharged over {len(fns)} functions"
           f"; engine B: {B.get('evaluations', 0)} cases ({B.get('distinct_nontrivial', 0)} "
@@ -318,7 +322,7 @@ def _main(prop, tier, seed, meta, tmp, a, t0):
         return 3
     if fresh:
         v = fresh[0]
-        n = len(glob.glob(os.path.join(ROOT, "replays", f"{prop}_*.json")))
+        n = len(glob.glob(os.path.join(OUT, "replays", f"{prop}_*.json")))
         path = os.path.join("replays", f"{prop}_{int(time.time())}_{n}.json")
         json.dump({"property": prop, "engine": v.get("engine"), "obligation": v.get("contract"),
                    "input": v.get("input"), "what_fails": v.get("what_fails"),
@@ -326,7 +330,7 @@ def _main(prop, tier, seed, meta, tmp, a, t0):
                    "replay": v.get("replay"), "detail": v.get("detail"),
                    "all_violations": [{k2: x.get(k2) for k2 in ("contract", "input", "what_fails")}
                                       for x in fresh[:20]]},
-                  open(os.path.join(ROOT, path), "w"), indent=1, default=str)
+                  open(os.path.join(OUT, path), "w"), indent=1, default=str)
         for x in fresh[:6]:
             print(f"  violated: {x.get('contract')}: {x.get('what_fails')}  input: "
                   f"{(x.get('input') or '')[:200]}")
